@@ -212,6 +212,17 @@ def run(prop, tier, seed, replay=None):
         except Exception:
             pass
         return 2
+    for cfg, Pn in ctx._programs.items():
+        nr = getattr(Pn, "normalised", None) or {}
+        if any(nr.values()):
+            ctx.note("normalisation[%s] relative to tables/locals.json: %d functions renamed back, %d functions with locals renamed "
+                     "back, %d call sites of new helpers inlined, %d functions with new temporaries propagated: %s" %
+                     (cfg, len(nr.get("renamed_functions", [])), len(nr.get("renamed", [])), len(nr.get("inlined_functions", [])),
+                      len(nr.get("inlined_locals", [])),
+                      "; ".join(["%s->%s" % (n, o) for f, n, o in nr.get("renamed_functions", [])][:5] +
+                                ["%s%s" % (fn, sorted(m.items())) for f, fn, m in nr.get("renamed", [])][:5] +
+                                ["%s<-%s" % (fn, g) for f, fn, g, l in nr.get("inlined_functions", [])][:5] +
+                                ["%s:%s" % (fn, r) for f, fn, r in nr.get("inlined_locals", [])][:5])))
     viol = [o for o in ctx.obl if o["verdict"] == "violation"]
     # build-configuration specific exceptions (thorough tier)
     for o in viol:
